@@ -157,7 +157,7 @@ func c10Render(cch Cache) string {
 		for _, a := range aff {
 			affS = append(affS, a.String())
 		}
-		out["pod/"+p.GetID()] = []any{p.GetUID(), p.GetName(), p.GetNamespace(), string(p.GetQOSClass()), p.GetCgroupParent(), ann, lbl, eff, effOK, affS, affErr == nil, p.PrettyName()}
+		out["pod/"+p.GetID()] = []any{p.GetUID(), p.GetName(), p.GetNamespace(), string(p.GetQOSClass()), p.GetCgroupParent(), ann, lbl, eff, effOK, affS, affErr == nil}
 	}
 	ctrs := cch.GetContainers()
 	sort.Slice(ctrs, func(i, j int) bool { return ctrs[i].GetID() < ctrs[j].GetID() })
@@ -172,16 +172,21 @@ func c10Render(cch Cache) string {
 		mounts, _ := json.Marshal(c.GetMounts())
 		devs, _ := json.Marshal(c.GetDevices())
 		hints, _ := json.Marshal(c.GetTopologyHints())
-		aff, affErr := c.GetAffinity()
+		_, podOK := c.GetPod()
+		var aff []*Affinity
+		var affErr error
+		if podOK {
+			// GetAffinity dereferences the pod; for a container whose pod is gone no handler reaches it
+			aff, affErr = c.GetAffinity()
+		}
 		affS := []string{}
 		for _, a := range aff {
 			affS = append(affS, a.String())
 		}
-		_, podOK := c.GetPod()
 		out["ctr/"+c.GetID()] = []any{c.GetPodID(), c.GetName(), c.GetNamespace(), int(c.GetState()), string(c.GetQOSClass()), c.GetArgs(), lbl, env,
 			c.GetCpusetCpus(), c.GetCpusetMems(), c.GetCPUShares(), c.GetCPUQuota(), c.GetCPUPeriod(), c.GetMemoryLimit(), c.GetMemorySwap(),
 			string(req), updOK, string(updJ), tag, tagOK, goneOK, string(mounts), string(devs), string(hints), c.GetRDTClass(), c.GetBlockIOClass(),
-			affS, affErr == nil, podOK, c.PrettyName()}
+			affS, affErr == nil, podOK}
 	}
 	var s string
 	if cch.GetPolicyEntry("s", &s) {
